@@ -613,6 +613,9 @@ func (c *clientV2) UpgradeTLS() error {
 	c.tlsConn = tlsConn
 
 	c.Reader = bufio.NewReaderSize(c.tlsConn, defaultBufferSize)
+	// a deflate writer negotiated by an earlier IDENTIFY wrote to the connection that TLS now
+	// wraps: Flush must no longer write its sync markers underneath the TLS records
+	c.flateWriter = nil
 	c.outputDest = c.tlsConn
 	c.Writer = bufio.NewWriterSize(c.tlsConn, c.OutputBufferSize)
 
